@@ -1,0 +1,19 @@
+//go:build verif
+
+package sniproxy
+
+// This file is only built with the "verif" tag. It lets an external
+// verification harness observe, and hold, a goroutine at a named point so
+// that a particular interleaving can be forced. Without the tag verifPoint
+// is an empty function (verif_point_off.go).
+
+// VerifHook, when set, is called at every schedule point with the point's
+// name, the endpoint name and the endpoint client concerned. It may block.
+// Set it before any server or endpoint is started.
+var VerifHook func(point, name string, c *VerifClient)
+
+func verifPoint(point, name string, ep *endpointClient) {
+	if h := VerifHook; h != nil {
+		h(point, name, verifWrapClient(ep))
+	}
+}
